@@ -186,7 +186,7 @@ type vC12Mon struct {
 const vC12Other = protocol.ID("/other/1.0.0")
 
 var vC12FailKinds = []string{"reqerr", "dead", "dialslow", "silent", "flaky"}
-var vC12OkKinds = []string{"ok", "ok", "ok", "ok", "ok", "slow", "empty", "liarself", "stranger"}
+var vC12OkKinds = []string{"ok", "ok", "ok", "ok", "ok", "slow", "empty", "liarself", "stranger", "slowdial"}
 
 func vC12New(t *testing.T, c *vh.Case, cfg vC12Cfg, conc bool) *vC12Mon {
 	m := &vC12Mon{c: c, cfg: cfg, conc: conc, health: map[peer.ID]string{}, delay: map[peer.ID]time.Duration{},
@@ -285,6 +285,10 @@ func (m *vC12Mon) installScript(i int, id peer.ID) {
 				return vsim.Reply{DialFail: true}
 			case "dialslow":
 				return vsim.Reply{DialFail: true, Delay: d}
+			case "slowdial":
+				// healthy, but the connection takes 1-3 s to come up: such a dial can be in flight when a lookup
+				// terminates or is cancelled (the dial then fails with the context's error: cancellation class)
+				return vsim.Reply{Delay: d + time.Duration(1+i%3)*time.Second}
 			}
 			return vsim.Reply{}
 		}
@@ -890,6 +894,29 @@ func (m *vC12Mon) rest(tag string) {
 		}
 		return false
 	}
+	// nextContact: stamp of the first dial or request to p that starts after seq (MaxInt64: none)
+	nextContact := func(p peer.ID, seq int64) int64 {
+		nxt := int64(math.MaxInt64)
+		for _, e := range n.S.Log() {
+			if e.Kind == vsim.EvRequest && e.Peer == p && e.Seq > seq && e.Seq < nxt {
+				nxt = e.Seq
+			}
+		}
+		for _, d := range n.H.DialLog() {
+			if d.Peer == p && d.Seq > seq && d.Seq < nxt {
+				nxt = d.Seq
+			}
+		}
+		return nxt
+	}
+	removedBetween := func(p peer.ID, a, b int64) bool {
+		for _, cb := range cbs {
+			if cb.Peer == p && !cb.Add && cb.Seq > a && cb.Seq < b {
+				return true
+			}
+		}
+		return false
+	}
 	water := m.demandDone
 	for p, fs := range facts {
 		for _, f := range fs {
@@ -903,7 +930,19 @@ func (m *vC12Mon) rest(tag string) {
 				continue
 			}
 			c.Obs("member_failures_judged_"+f.Src, 1)
-			c.Check(removedAfter(p, f.Seq), "failed-member-removed", "%s was a member when it failed (%s, #%d) and no PeerRemoved followed; %s", n.Name(p), f.Src, f.Seq, ctx(p))
+			if !c.Check(removedAfter(p, f.Seq), "failed-member-removed", "%s was a member when it failed (%s, #%d) and no PeerRemoved followed; %s", n.Name(p), f.Src, f.Seq, ctx(p)) {
+				continue
+			}
+			// A failed liveness probe (its Connect or its request) and a failed dial of a refresh lookup evict in the
+			// goroutine that saw the failure, before it does anything else (rt_refresh_manager.go pingAndEvictPeers,
+			// query.go queryPeer), and nothing else contacts a member meanwhile (steps are sequential, one probe per
+			// member, admission probes only go to non-members): the PeerRemoved callback precedes the next dial or
+			// request to that peer. An eviction that only comes with a LATER failure of the peer (e.g. in the lookups
+			// the refresh runs after the probes) is not the probe's.
+			if f.Src == "dialO" || f.Src == "probe" {
+				nxt := nextContact(p, f.Seq)
+				c.Check(removedBetween(p, f.Seq, nxt), "failed-probe-evicts-at-once", "%s was a member when it failed (%s, #%d); it was contacted again at #%d and no PeerRemoved lies in between (it was evicted only by a later failure); %s", n.Name(p), f.Src, f.Seq, nxt, ctx(p))
+			}
 		}
 	}
 	for _, e := range m.protoEvs {
@@ -1326,8 +1365,8 @@ func (m *vC12Mon) runHistory(t *testing.T) {
 
 func TestVerif_C12_histories(t *testing.T) {
 	vh.Run(t, vh.Spec{Prop: "C12", Unit: "histories", Quick: 400, Thorough: 16000, CostMs: 100,
-		Rule:    "PRNG histories of 8-16 steps over 3-15 simulated peers (K in {24,40} so that no bucket fills; alpha in {1,3,10,K}; beta = K or, in a third of the cases, 1/3 with follow-up phase; optional generated routing-table filter; refresh period 20 s-5 min, query timeout 4/10 s, sender read timeout 3/10 s, lookup-check concurrency 256/1/2; fix-low-peers loop running): burst connect+identify, identify with/without the DHT protocol, protocol removed/added, health flips (ok, slow, empty answer, liar naming self/strangers, request error, dead, slow dial failure, silent, flaky), disconnect, GetClosestPeers (plain / cancelled at a PRNG instant or exactly at a reply instant / pre-cancelled), RefreshRoutingTable/ForceRefresh (1-3 at once), idle beyond the ping grace period, identify event for the local node, Close in four variants with refresh requests before/during/after; every step ends at a rest point in virtual time where PeerAdded/PeerRemoved callbacks, ListPeers and the refresh channels are judged against the simulated wire log; non-trivial = at least one admission and one eviction; distinct by (shape, step kinds, #adds, #removals)",
-		Clauses: []string{"never-self", "admit-after-reply", "admit-fresh-reply", "probe-admission-valid", "removal-justified", "failed-member-removed", "failed-member-absent", "cancel-only-retained", "callbacks-match-table", "refresh-answered", "refresh-one-value", "refresh-answered-shutdown"}},
+		Rule:    "PRNG histories of 8-16 steps over 3-15 simulated peers (K in {24,40} so that no bucket fills; alpha in {1,3,10,K}; beta = K or, in a third of the cases, 1/3 with follow-up phase; optional generated routing-table filter; refresh period 20 s-5 min, query timeout 4/10 s, sender read timeout 3/10 s, lookup-check concurrency 256/1/2; fix-low-peers loop running): burst connect+identify, identify with/without the DHT protocol, protocol removed/added, health flips (ok, slow, slow successful dial, empty answer, liar naming self/strangers, request error, dead, slow dial failure, silent, flaky), disconnect, GetClosestPeers (plain / cancelled at a PRNG instant or exactly at a reply instant / pre-cancelled), RefreshRoutingTable/ForceRefresh (1-3 at once), idle beyond the ping grace period, identify event for the local node, Close in four variants with refresh requests before/during/after; every step ends at a rest point in virtual time where PeerAdded/PeerRemoved callbacks, ListPeers and the refresh channels are judged against the simulated wire log; non-trivial = at least one admission and one eviction; distinct by (shape, step kinds, #adds, #removals)",
+		Clauses: []string{"never-self", "admit-after-reply", "admit-fresh-reply", "probe-admission-valid", "removal-justified", "failed-member-removed", "failed-probe-evicts-at-once", "failed-member-absent", "cancel-only-retained", "callbacks-match-table", "refresh-answered", "refresh-one-value", "refresh-answered-shutdown"}},
 		func(c *vh.Case) {
 			cfg := vC12Gen(c)
 			c.Bubble(t, 200*time.Hour, "c12-hang", func(t *testing.T) {
